@@ -113,6 +113,25 @@ class Dim:
             return ds.pop() if len(ds) == 1 else None
         if k == "field" and t[2] == "num_vars":
             return "Count"
+        if k == "mu":
+            # a counter: starts at 0 and goes up by one per item visited.  It counts the items (leaves, entries) — the
+            # number of *distinct* labels seen — which bounds the labels only when they happen to be 0..n-1.
+            te = fn.terms
+            init = strip(te.mu_init.get((t[1], t[2]), ("top",)))
+            ups = te.mu_update.get((t[1], t[2]), [])
+            if init[0] == "const" and init[2] == "0" and ups:
+                def step(u):
+                    u = strip(u)
+                    if u[0] == "field" and u[2] == "0":
+                        u = strip(u[1])
+                    if u == t:
+                        return True
+                    if u[0] in ("gamma", "phi"):
+                        return all(step(v) for _, v in u[2])
+                    return u[0] == "bin" and u[1].startswith("Add") and ((strip(u[2]) == t and strip(u[3])[0] == "const" and strip(u[3])[2] == "1") or
+                                                                         (strip(u[3]) == t and strip(u[2])[0] == "const" and strip(u[2])[2] == "1"))
+                if all(step(u) for u in ups):
+                    return "Entries"
         return None
 
 
@@ -154,7 +173,10 @@ def run(prog):
                     out.append(inst("IC", key, UNDECIDED, fn, line, "dimension of %s not determined" % show(v)[:100]))
                 else:
                     out.append(inst("IC", key, OK if d == "Count" else VIOLATION, fn, line,
-                                    "field num_vars initialised with a %s: %s" % (d, show(v)[:100])))
+                                    ("field num_vars initialised with a %s: %s" % (d, show(v)[:100])) if d != "Entries" else
+                                    "field num_vars is a tally of the items visited (%s): the number of distinct variables, which is a "
+                                    "bound on their labels only when these are 0..n-1; tables indexed by label are sized by num_vars"
+                                    % show(v)[:40]))
         seen = {}
         for cs in te.calls:
             nm = cs.callee.name
